@@ -211,3 +211,69 @@ func containersKnown(res *RunResult) {
 	}
 	res.Notes = append(res.Notes, fmt.Sprintf("container fields checked against the known-message set: %d", n))
 }
+
+// expectedSlotKind: the Go type of the struct field a profile type code calls for, in the notation
+// of the regenerated layout (".sc (.u 16)", ".sl (.u 8)", ".time", ...): the Go mirror of the
+// model's slotOfType, written independently of it.
+func expectedSlotKind(tcode int) (string, bool) {
+	switch tcKind(tcode) {
+	case 1, 2:
+		return ".time", !tcArray(tcode)
+	case 3:
+		return ".lat", !tcArray(tcode)
+	case 4:
+		return ".lng", !tcArray(tcode)
+	case 0:
+	default:
+		return "", false
+	}
+	sc := map[byte]string{0: ".u 8", 1: ".i 8", 2: ".u 8", 3: ".i 16", 4: ".u 16", 5: ".i 32", 6: ".u 32", 7: ".s",
+		8: ".f 32", 9: ".f 64", 10: ".u 8", 11: ".u 16", 12: ".u 32", 13: ".u 8", 14: ".i 64", 15: ".u 64", 16: ".u 64"}
+	k, ok := sc[tcBase(tcode)&0x1F]
+	if !ok {
+		return "", false
+	}
+	if tcArray(tcode) {
+		return ".sl (" + k + ")", true
+	}
+	return ".sc (" + k + ")", true
+}
+
+// entryKinds: for every lookup entry of every known message, the struct field it designates must
+// exist and have the Go type the entry's base type, array flag and time/coordinate kind call for
+// (a narrower field silently truncates decoded values and makes Encode write fewer bytes than the
+// definition declares), and no two entries of a message may designate the same struct field.
+func entryKinds(res *RunResult) {
+	n := 0
+	for _, m := range theFacts().Msgs {
+		if !m.Known {
+			continue
+		}
+		seen := map[int]int{}
+		for _, f := range m.Fields {
+			n++
+			name := ""
+			if f[0] >= 0 && f[0] < len(m.FNames) {
+				name = m.FNames[f[0]]
+			}
+			what := fmt.Sprintf("profile entry message %d (%s) field %d (%s)", m.Num, m.Name, f[1], name)
+			if prev, dup := seen[f[0]]; dup {
+				addViolation(res, what, fmt.Sprint(prev), fmt.Sprintf("field numbers %d and %d designate the same struct field", prev, f[1]))
+			}
+			seen[f[0]] = f[1]
+			if f[0] < 0 || f[0] >= len(m.Layout) {
+				addViolation(res, what, fmt.Sprint(f[0]), "the entry designates a struct field that does not exist")
+				continue
+			}
+			want, ok := expectedSlotKind(f[2])
+			if !ok {
+				addViolation(res, what, fmt.Sprint(f[2]), "the entry's type code calls for no Go type")
+				continue
+			}
+			if got := m.Layout[f[0]]; got != want {
+				addViolation(res, what, got, fmt.Sprintf("struct field %s has Go kind %s; the entry's type (code %d) calls for %s", name, got, f[2], want))
+			}
+		}
+	}
+	res.Notes = append(res.Notes, fmt.Sprintf("struct field types compared with the entries' types: %d (message, field) entries", n))
+}
